@@ -396,6 +396,10 @@ fn run_job(cache: &mut HashMap<String, Result<CachedRuntime, String>>, source_he
     say("S apply");
     let source = String::from_utf8(unhex(source_hex)).expect("utf-8 source");
     if !cache.contains_key(&source) {
+        // bounded cache (the address space is limited): drop everything when it grows
+        if cache.len() >= 6 {
+            cache.clear();
+        }
         // failures are cached too: the same source would fail again
         cache.insert(source.clone(), build_runtime(&source));
     }
